@@ -7,12 +7,15 @@ PROOF_AX = ("Coq 8.16.1 kernel incl. vm_compute (no native_compute); axioms per 
             "reports them, parsed on every run against the allow-list {Classical_Prop.classic, "
             "ClassicalDedekindReals.sig_forall_dec, ClassicalDedekindReals.sig_not_dec, "
             "FunctionalExtensionality.functional_extensionality_dep} (stdlib axioms Flocq's reals use); "
-            "data translator harness/dump + tools/gen_coq.py; source translator tools/rs2coq (Rust subset -> Gallina, "
-            "regenerates coq/gen/Src.v from /repo/src on every run, fails closed on constructs outside its subset; its "
-            "output for 33 functions of mask/extended_float/rounding/num/number/lemire/bellerophon/slow is PROVED equal to "
-            "the hand-written model: proofs/SrcEquiv*.v, theorems rs_*_eq pinned in props C01 C02 C11 C17 C18); the rest of the "
-            "hand-written Gallina model (parse.rs iterators, parse_mantissa macros, bigint.rs, the vectors) is tied to /repo by the "
-            "correspondence harness (Rust runner vs extracted OCaml model, ExtrOcamlBasic only) - that tie is "
+            "data translator harness/dump + tools/gen_coq.py; source translator tools/rs2coq (Rust subset -> Gallina, 27 rules, "
+            "regenerates coq/gen/Src*.v from /repo/src and the four front-end files on every run, fails closed per function on constructs "
+            "outside its subset) together with the hand-written library coq/model/SrcLib.v + SrcLibFront.v (loop combinators, slice / iterator / "
+            "vector primitives; the vector primitives are model/Vec.v's, tied at cell level by C13); its output for EVERY function that parse_float "
+            "executes (mask, extended_float, rounding, num, number, lemire, bellerophon, slow, bigint, parse: 66 definitions) and for the four "
+            "shipped front-end copies is PROVED equal to the hand-written model (proofs/SrcEq*.v) and composed into rs_parse_float_correct "
+            "(proofs/SrcFinal.v); NOT translated: the unsafe bodies of stackvec.rs / heapvec.rs (cell-level model + history correspondence, C13), "
+            "libm.rs and the tables (dumped from the compiled crate and executed exhaustively); the correspondence harness (Rust runner vs "
+            "extracted OCaml model, ExtrOcamlBasic only) runs the same model against the compiled code - that tie is "
             "differential testing, not proof; rustc/LLVM/hardware IEEE arithmetic modelled, not verified.")
 
 # id -> (category, technique, text, note)
@@ -36,11 +39,13 @@ DEEP = DEEP_CLOSED if os.path.exists('/verif/coq/proofs/.deep_closed') else DEEP
 E2E = E2E % DEEP
 E2E_CAT = 'proof' if os.path.exists('/verif/coq/proofs/.deep_closed') else 'other'
 TIE = ("The model is tied to /repo on every run: constants/tables/on-demand powers are re-dumped from the compiled crate and the "
-       "proofs re-checked against them; the fast path, both extended-precision stages, the rounding primitive, the float helpers and "
-       "scientific_exponent are re-translated from the Rust source by tools/rs2coq and proved equal to the model (rs_*_eq, props/C01.v "
-       "C11.v C17.v C18.v); the whole hand-written model is run against the real code (8 configurations x 2 build modes) on "
+       "proofs re-checked against them; EVERY function parse_float executes (parse.rs, number.rs, lemire.rs, bellerophon.rs, slow.rs incl. "
+       "parse_mantissa, bigint.rs, rounding.rs, mask.rs, num.rs, extended_float.rs) is re-translated from the Rust source by tools/rs2coq and "
+       "proved equal to the model (rs_*_eq, proofs/SrcEq*.v), composed in proofs/SrcFinal.v into rs_parse_float_eq_bytes (regenerated source = "
+       "model for arbitrary bytes) and rs_parse_float_correct: the end-to-end theorem holds of the definitions regenerated from the current Rust "
+       "text (pinned in props/C01.v, C02.v); the whole hand-written model is also run against the real code (8 configurations x 2 build modes) on "
        "directed generators (exact midpoints at depths 1..10^6, closest approaches for every q, algebraic ties, fallback witnesses, "
-       "fast-path fence posts incl. wrapped products, every decade, deep binades, saturation, zero-limb big integers) and every "
+       "fast-path fence posts incl. wrapped products, every decade, deep binades, saturation, zero-limb and top-limb-carry big integers) and every "
        "result is also judged against an exact rational oracle.")
 P = {
  'C01': (E2E_CAT, 'Coq end-to-end theorem parse_float_correct on a Gallina model + model/code correspondence + exact-oracle search',
@@ -60,27 +65,27 @@ P = {
  'C06': (E2E_CAT, 'Coq: end-to-end theorem for inputs of up to 2^28 digits + the MAX_DIGITS truncation argument + correspondence with deep-digit generators',
          "props/C06.v: parse_number keeps 19 digits + flag, parse_mantissa keeps MAX_DIGITS digits + one sticky digit, truncation_preserves_rounding "
          "(every rounding boundary has <= MAX_DIGITS significant digits; side condition computed on the regenerated constant: f64 needs >= 768), "
-         "far_digit_breaks_tie, nines_below_tie_round_down, trailing_zeros_irrelevant. " + E2E +
+         "far_digit_breaks_tie, nines_below_tie_round_down, trailing_zeros_irrelevant; source tie rs_parse_mantissa_eq, rs_slow_eq_TABLES, rs_positive/negative_digit_comp_eq_TABLES (slow.rs regenerated = model). " + E2E +
          "Deep-digit ties / 9-tails / trailing zeros at depths 20..10^6 run against the exact oracle.", PROOF_AX),
  'C07': (E2E_CAT, 'Coq: thresholds, subnormals and saturated exponents as corollaries of the end-to-end theorem + correspondence at the range ends',
          "C07_overflow_underflow, parse_float_far_small/large/zero (exponents to the i32 limits, where the decimal exponent saturates) (props/C07.v). " + E2E +
          "Directed cases at 2^-1075, 2^-1074, 2^-1022, 2^1024-2^970, every binade 90 bits below / 70 above the range, i32-limit exponents with compensating digit strings.", PROOF_AX),
  'C08': ('other', 'Coq model with explicit UB outcomes for unchecked sites (no-UB theorems for parse_float on arbitrary bytes and for all vector histories) + unsafe-site inventory + garbage-byte differential',
          "Partial by nature: parse_float_no_UB (any bytes, any exponent, 8 configurations; side condition on table lengths discharged on the regenerated tables) "
-         "and history_no_ub for the cell-level StackVec model; the machine-level behaviour of the compiled unsafe code is observed (garbage-byte differential on outcome class "
+         "and history_no_ub for the cell-level StackVec model; rs_parse_float_no_UB: the same for the Gallina translation of parse_float regenerated from /repo/src on every run (proofs/SrcFinal.v); the machine-level behaviour of the compiled unsafe code is observed (garbage-byte differential on outcome class "
          "and value, unsafe-site inventory of /repo/src diffed against the one the model was written against, Miri in the thorough tier), not proved.", PROOF_AX),
  'C09': (E2E_CAT, 'Coq: monotonicity as a corollary of the end-to-end theorem and RN_monotone + ordered-pair differential on the real code',
          "C09_monotone (props/C09.v). " + E2E + "Adjacent pairs across every algorithm switch-over are compared on the real code directly.", PROOF_AX),
  'C10': (E2E_CAT, 'Coq: value invariance as a corollary of the end-to-end theorem and RN_Qeq + re-splitting differential',
-         "C10_value_invariant (props/C10.v): two valid inputs denoting the same rational give the same result. " + E2E +
+         "C10_value_invariant (props/C10.v): two valid inputs denoting the same rational give the same result; source tie rs_parse_number_eq, rs_parse_number_fast_eq (the digit accumulation regenerated from parse.rs = model, arbitrary bytes). " + E2E +
          "All re-splittings of a digit sequence with compensating exponent and appended zeros are run on every configuration.", PROOF_AX),
  'C11': ('proof', 'Coq: soundness theorems for both implementations of the stage (Eisel-Lemire: integers only, no axioms; Bellerophon: forward error analysis) for every (w, q, truncated) + refinement correspondence + number-theoretic search',
          "props/C11.v: compute_float_sound_all (every w in u64, every q, both builds: never a panic; a definite answer is rne_bits of w*10^q), lemire_sound (truncated: definite only "
          "if the answers at w and w+1 coincide), bellerophon_sound (the full statement incl. the truncated range), on the regenerated tables. Outside the theorems' hypotheses "
          "are exactly the API-only corners listed in KNOWN_FINDINGS (F2a/b/c: truncated with w = 0, u64::MAX, or < 2^40 for Bellerophon), which parse_float cannot produce. Source tie: rs_lemire_eq_std, rs_compute_float_eq_std, rs_compute_product_approx_eq, rs_full_multiplication_eq, rs_power_eq, rs_compute_error*_eq, rs_bellerophon_eq_std, rs_error_is_accurate_eq, rs_normalize_eq, rs_mul_eq, rs_get_small/large_eq: the Gallina translation of lemire.rs and bellerophon.rs, regenerated from /repo/src on every run, equals the model the soundness theorems are about. "
          "The stage is also called directly on closest approaches, algebraic ties, fallback witnesses, degenerate products for every q and judged against exact rationals.", PROOF_AX),
- 'C12': ('proof', 'Coq: induction over limb lists - value of the result = the operation on naturals, None <-> result does not fit (37 theorems) + limb-for-limb correspondence on both back-ends',
-         "Closed theorems (props/C12.v, no axioms) over the list-of-limbs model for every operation the property lists: small add/mul, large add, long/large mul, pow by 5/10 (135/27/table decomposition, on the regenerated tables, compact and non-compact), shifts, compare, normalise, bit length, hi64 + sticky flag, from_u64; for the fixed-capacity back-end failure is reported exactly when B64^62 <= exact result (normalised operands), and the state left behind by a failed small op is characterised. Hold for arbitrary build mode. The model is tied to the code by running both on carry-chain patterns at and one limb past capacity, both back-ends, release and checked builds, and against Python integers.", PROOF_AX),
+ 'C12': ('proof', 'Coq: induction over limb lists - value of the result = the operation on naturals, None <-> result does not fit (37 theorems) + bigint.rs regenerated as Gallina and proved equal to the model (28 theorems) + limb-for-limb correspondence on both back-ends',
+         "Closed theorems (props/C12.v, no axioms) over the list-of-limbs model for every operation the property lists: small add/mul, large add, long/large mul, pow by 5/10 (135/27/table decomposition, on the regenerated tables, compact and non-compact), shifts, compare, normalise, bit length, hi64 + sticky flag, from_u64; for the fixed-capacity back-end failure is reported exactly when B64^62 <= exact result (normalised operands), and the state left behind by a failed small op is characterised. Hold for arbitrary build mode. Source tie: all 25 functions of bigint.rs are regenerated from the Rust text on every run (coq/gen/SrcBigint.v) and proved equal to the model functions these theorems are about (28 rs_*_eq theorems, u64 limbs, usize lengths, both back-ends; the vector primitives are model/Vec.v's). The model is also tied to the code by running both on carry-chain patterns at and one limb past capacity, both back-ends, release and checked builds, and against Python integers.", PROOF_AX),
  'C13': ('proof', 'Coq: refinement of a cell-level model of StackVec (62 MaybeUninit cells + u16 length, raw writes/copies/set_len with UB outcomes) to a bounded sequence, lifted to all histories by induction + history correspondence of both models with the code',
          "Closed theorems (props/C13.v, no axioms): every operation of the safe API from a state satisfying the invariant (len <= 62, prefix initialised) returns Ok (never UB), preserves the invariant and yields the output and contents of the reference sequence; failed push/extend/resize leave the state unchanged; lifted to all finite histories from new() (fold over the op list), both build modes; eq/cmp agree with numeric comparison for normalised operands. The cell-level model itself is extracted and replayed against the real StackVec on every run (contents after every step), the list-level model against StackVec and HeapVec. Arbitrary-limb, arbitrary-length histories; the heap vector is covered at list level (never fails).", PROOF_AX),
  'C14': ('proof', 'Coq: vm_compute over the regenerated tables (finite domain, forallb lifted by forallb_forall)',
@@ -90,11 +95,11 @@ P = {
  'C15': ('other', 'counting global allocator + nm on the rlib + allocation-construct inventory',
          "Partial by nature: allocation is a runtime effect. Counting allocator around every call in all non-alloc builds, symbol check of the "
          "compiled library, inventory of allocation-capable constructs tied to the model's storage selection.", PROOF_AX),
- 'C16': ('other', 'Coq: the parser over an abstract cursor equals the list-level parser for every fused cursor and every denotation-preserving clone (iterator-protocol independence) + iterator-shape / stack-poisoning / thread differential on the real code',
+ 'C16': ('other', 'Coq: the parser over an abstract cursor equals the list-level parser for every fused cursor and every denotation-preserving clone (iterator-protocol independence) + iterator-shape / stack-poisoning / thread / call-history differential on the real code + global-state inventory',
          "Partial by nature (addresses, stack residue and thread schedules cannot be expressed in Gallina). props/C16.v: it_parse_float_general / _fused / iter_shape_independent / "
          "clone_independent (model/Iter.v follows the Rust call by call: clones, count(), next() after None); the fused hypothesis is shown necessary and the two places where the "
          "code calls next() after a None are pinned down. The check feeds every input through 10 iterator shapes, stack-poisoning histories and 16 threads on the real code, incl. "
-         "slow-path inputs with zero low limbs, and compares bit for bit.", PROOF_AX),
+         "slow-path inputs with zero low limbs, and compares bit for bit; a call-history suite parses digit strings that are hard at two decimal scales back to back in every order (one thread and across threads) against the oracle; an inventory of global / interior-mutable state in /repo/src is diffed against the (stateless) model's.", PROOF_AX),
  'C17': ('proof', 'Coq: theorems generic in the format record under a boolean side condition discharged on the regenerated F32/F64 constants (25 theorems, all bit patterns) + agreement with the IEEE-754 decoder of Flocq + correspondence',
          "Closed theorems (props/C17.v) for every bit pattern 0 <= x < 2^fbits (no enumeration: generic in the format, side condition fmt_ok computed on the constants dumped from the compiled crate): subnormal detection, exponent(), mantissa(), mantissa*2^exponent = magnitude (as the decoded SpecFloat value, and as Flocq B2R of Flocq's own binary_float_of_bits), to_bits/from_bits lossless, packing (biased exponent, fraction) incl. the overlapping hidden bit, b / b+h, order of patterns = order of values. Both build modes. Source tie: rs_is_denormal_eq, rs_exponent_eq, rs_mantissa_eq, rs_extended_to_float_eq, rs_b_eq, rs_bh_eq (translation of the Rust text regenerated every run = model). Also tied by L1f correspondence (all 2^32 f32 patterns in the thorough tier).", PROOF_AX),
  'C18': ('proof', 'Coq: closed form of round / round_nearest_tie_even / round_down over Z, then equality with Flocq round-to-nearest-even (and Zfloor) on FLT and with the oracle RN, for all significands and exponents in range (20 theorems) + correspondence on every exponent',
@@ -102,7 +107,7 @@ P = {
  'C19': (E2E_CAT, 'Coq: lexer theorems (grammar decomposition, maximal munch, exponent saturation, trimming, special literals, totality) + front_end_value composing them with the end-to-end theorem + correspondence on the shipped front-end copies',
          "props/C19.v: front_end_value - for every byte string of at most 2^28 bytes the front end returns the pattern of +-RN(value of the literal as written) and exactly the "
          "unconsumed suffix (all 8 configurations, both formats, both build modes); lex_spec / lex_unique / lex_longest_prefix (the matched prefix is the longest word of the grammar), "
-         "parse_exponent_saturates, trim_preserves_value, special literals with the accepted bytes enumerated, front_end_total (no panic of its own on any bytes). " + E2E +
+         "parse_exponent_saturates, trim_preserves_value, special literals with the accepted bytes enumerated, front_end_total (no panic of its own on any bytes). Source tie: the four shipped copies (examples/simple.rs, etc/.../main.rs, fuzz/fuzz_targets/parse.rs, tests/integration_tests.rs) are regenerated as Gallina on every run (coq/gen/SrcFront*.v) and proved equal to fe_simple / fe_fuzz for arbitrary byte strings (rs_<tag>_parse_float_eq_bytes), with the value theorem restated for the regenerated examples/simple.rs (rs_simple_parse_float_correct). " + E2E +
          "The repository's own front-end files are compiled into the harness (not transcribed) and diffed against the model on grammar-derived and arbitrary byte strings.", PROOF_AX),
 }
 
